@@ -268,6 +268,9 @@ MUTANTS = {
         mut("pdf-no-exists-test", "default PDF path overwritten", [(MAIN, "                    if is_default && output_path.exists() {", "                    if is_default && false {")], ["R4:main:pdf-overwrite-guard"]),
         mut("validator-arm-dropped", "validator ignores negative fees", [(VALID, "    if fields.fees.amount < Decimal::ZERO {", "    if fields.fees.amount < Decimal::MIN {")], ["R5:validate"]),
         mut("validator-zero-qty-ok", "validator accepts zero quantity", [(VALID, "    if fields.amount == Decimal::ZERO {", "    if fields.amount == Decimal::ONE {")], ["R5:validate"]),
+        mut("split-zero-guard-removed", "SPLIT arm of the look-ahead accumulator loses its zero guard", [(BNB, "            if *ratio != Decimal::ZERO {\n                *cumulative_ratio_effect *= *ratio;\n            }", "            *cumulative_ratio_effect *= *ratio;")], ["R6:"]),
+        mut("unsplit-guard-sign-only", "UNSPLIT guard tests only the sign bit", [(BNB, "            if *ratio != Decimal::ZERO {\n                *cumulative_ratio_effect /= *ratio;", "            if ratio.is_sign_positive() {\n                *cumulative_ratio_effect /= *ratio;")], ["R6:"]),
+        mut("proceeds-guard-removed", "compute_proceeds divides by an untested sale quantity", [(M, "    if sell_qty == Decimal::ZERO {\n        return ProportionalProceeds {", "    if sell_qty == Decimal::ONE {\n        return ProportionalProceeds {")], ["R6:"]),
         mut("days-nonconst", "look-back by an input-derived number of days", [(AWARDS, "        for days_back in 1..=7 {", "        for days_back in 1..=(date.to_string().len() as i64) {")], ["R1:", "R2:"]),
     ],
     "C16": [
